@@ -311,6 +311,16 @@ func (f *FuncCtx) assign(l ast.Expr, v Val, env *Env) {
 		fl, ok := obj.(*types.Var)
 		if !ok || len(path) != 1 {
 			if ok && len(path) > 1 {
+				// promoted field: make the embedded hop explicit (a.F = v  ==>  a.Embedded.F = v)
+				bt := x.Typ
+				if p, isP := bt.Underlying().(*types.Pointer); isP {
+					bt = p.Elem()
+				}
+				if st, isS := bt.Underlying().(*types.Struct); isS && path[0] < st.NumFields() {
+					inner := &ast.SelectorExpr{X: l.X, Sel: ast.NewIdent(st.Field(path[0]).Name())}
+					f.assign(&ast.SelectorExpr{X: inner, Sel: l.Sel}, v, env)
+					return
+				}
 				f.fail("assignment through embedded field %s unsupported", exprStr(l))
 			} else {
 				f.fail("assign to non-field %s", exprStr(l))
